@@ -1,4 +1,4 @@
-module verifharness
+module verif/wasmprof
 
 go 1.24
 
